@@ -10,7 +10,7 @@ from symx.ops import And
 def install():
     import artap.utils as U
     import artap.doe as DOE
-    stubs.install((U, 'random', stubs.s_random))
+    stubs.install((U, 'random', stubs.s_random), (U, 'int', ops.sint))
     return DOE
 
 
